@@ -240,8 +240,9 @@ def mw_class(tid, unique, reorderable):
         base = Middleware
         if tid % 2 == 1 and (tid - 1) in _MW_BASE_FLAGS:
             base = mw_class(tid - 1, *_MW_BASE_FLAGS[tid - 1])
-        _MW_CLASSES[key] = type('MW%d%s%s' % (tid, 'u' if unique else 'n', '' if reorderable else 'x'),
-                                (base,), {'unique': unique, 'reorderable': reorderable})
+        # distinct types may carry the same class name (two packages each with a `Guard`): types 0 and 2, and 1 and 3, do
+        cname = 'MW%s' % ('AB'[tid % 2] if tid < 4 else '%d%s%s' % (tid, 'u' if unique else 'n', '' if reorderable else 'x'))
+        _MW_CLASSES[key] = type(cname, (base,), {'unique': unique, 'reorderable': reorderable})
     return _MW_CLASSES[key]
 
 
